@@ -2255,7 +2255,7 @@ def _as_load(t):
     return n
 
 
-def swallowing_predicate(mod, func):
+def swallowing_predicate(mod, func, cls=None):
     """Context-manager expressions that log-and-continue: ``X.failureHandler(..)`` / ``X.failuresHandled(..)``
     calls, module-level names bound to such calls, and locals whose every binding is one of those."""
     def is_sw(e, depth=0) -> bool:
@@ -2269,12 +2269,16 @@ def swallowing_predicate(mod, func):
             name = e.func.id if isinstance(e.func, ast.Name) else (e.func.attr if isinstance(e.func.value, ast.Name) and e.func.value.id == "self" else None)
             helper = mod.find(name) if name and isinstance(e.func, ast.Name) else None
             if helper is None and name:
-                for c in mod.classes():
-                    if func in c.body:
-                        helper = methods(c).get(name)
+                if cls is not None:
+                    r_ = mro_lookup(mod, cls, name)
+                    helper = r_[1] if r_ and isinstance(r_[1], ast.FunctionDef) else None
+                else:
+                    for c in mod.classes():
+                        if func in c.body:
+                            helper = methods(c).get(name)
             if isinstance(helper, (ast.FunctionDef,)):
                 rets = [r for r in ast.walk(helper) if isinstance(r, ast.Return) and mod.enclosing_function(r) is helper]
-                return bool(rets) and all(r.value is not None and swallowing_predicate(mod, helper)(r.value) for r in rets) if depth < 3 else False
+                return bool(rets) and all(r.value is not None and swallowing_predicate(mod, helper, cls)(r.value) for r in rets) if depth < 3 else False
         if isinstance(e, ast.Name):
             local = [s.value for s in ast.walk(func) if isinstance(s, ast.Assign) and any(isinstance(t, ast.Name) and t.id == e.id for t in s.targets)]
             if local:
